@@ -7,6 +7,8 @@ import Mdsort.Proofs.ConfRT2
 namespace Mdsort.Proofs.Conf
 open Mdsort Mdsort.Model Mdsort.Spec
 
+variable {tl : Bytes} {NoErr : Nat → ParseSt → Prop}
+
 /-! `relabel` does not change what the semantic checks count. -/
 
 theorem leafAction_withLno (e : Expr) : (Expr.withLno 1 e).leafAction = e.leafAction := by cases e <;> rfl
@@ -68,201 +70,201 @@ def stopAct : PTok → Bool
   | _ => false
 
 theorem acts_stop (cx : PCtx) (fuel : Nat) (acc : Option CTree) (s : ParseSt) (t : PTok) (ts : List PTok)
-    (hs : Up s (t :: ts)) (ht : stopAct t = true) :
-    wp (parseActions cx fuel acc) (fun a s' => a = acc ∧ Up s' (t :: ts)) NoErr True s := by
+    (hs : Up cx tl s (t :: ts)) (ht : stopAct t = true) :
+    wpl (parseActions cx fuel acc) (fun a s' => a = acc ∧ Up cx tl s' (t :: ts)) NoErr True s := by
   cases fuel with
-  | zero => simp [parseActions, wp, outOfFuel]
+  | zero => simp [parseActions, wpl, outOfFuel]
   | succ fuel =>
     unfold parseActions
-    simp only [wp_bind]
+    simp only [wpl_bind]
     have hok := hs.ok t (by simp)
     cases t <;> simp only [stopAct, Bool.false_eq_true] at ht
     · rename_i k
       cases k <;> simp only [stopAct, Bool.false_eq_true] at ht
-      apply wp_peek_up cx _ _ hs rfl
+      apply wpl_peek_up cx _ _ hs rfl
       intro s1 h1
-      simp only [tkOf, parseActionWith, wp_pure]
+      simp only [tkOf, parseActionWith, wpl_pure]
       exact ⟨by first | trivial | rfl, h1.up_some hok⟩
-    · apply wp_peek_up cx _ _ hs rfl
+    · apply wpl_peek_up cx _ _ hs rfl
       intro s1 h1
-      simp only [tkOf, wp_pure]
+      simp only [tkOf, wpl_pure]
       exact ⟨by first | trivial | rfl, h1.up_some hok⟩
 
 /-- `andJoin` on line 1. -/
-theorem wp_andJoin (cx : PCtx) (hnl : cx.nl = 0) (acc : Option CTree) (a : CTree) {Q : Option CTree → ParseSt → Prop}
-    {s : ParseSt} {ts : List PTok} (h : Up s ts) (hQ : Q (some (joinA acc a)) s) :
-    wp (andJoin cx acc a) Q NoErr True s := by
+theorem wpl_andJoin (cx : PCtx) (hnl : cx.nl = countNl tl) (acc : Option CTree) (a : CTree) {Q : Option CTree → ParseSt → Prop}
+    {s : ParseSt} {ts : List PTok} (h : Up cx tl s ts) (hQ : Q (some (joinA acc a)) s) :
+    wpl (andJoin cx acc a) Q NoErr True s := by
   unfold andJoin
-  simp only [wp_bind, wp_pure]
-  apply wp_curLine_up cx hnl h
+  simp only [wpl_bind, wpl_pure]
+  apply wpl_curLine_up cx hnl h
   cases acc <;> exact hQ
 
 /-- What is to be shown of a tree, by kind. -/
-def Goal (cx : PCtx) : Kind → CTree → Prop
+def Goal (cx : PCtx) (tl : Bytes) (NoErr : Nat → ParseSt → Prop) : Kind → CTree → Prop
   | .cond, _ => True
   | .act, t => ∀ (acc : Option CTree) (ts : List PTok) (Q : Option CTree → ParseSt → Prop),
-      (∀ fuel' s', Up s' ts → wp (parseActions cx fuel' (some (joinA acc (relabel t)))) Q NoErr True s') →
-      ∀ fuel s, Up s (toks .act t ++ ts) → wp (parseActions cx fuel acc) Q NoErr True s
+      (∀ fuel' s', Up cx tl s' ts → wpl (parseActions cx fuel' (some (joinA acc (relabel t)))) Q NoErr True s') →
+      ∀ fuel s, Up cx tl s (toks .act t ++ ts) → wpl (parseActions cx fuel acc) Q NoErr True s
   | .acts, t => ∀ (acc : Option CTree) (ts : List PTok) (Q : Option CTree → ParseSt → Prop),
-      (∀ fuel' s', Up s' ts → wp (parseActions cx fuel' (some (joinAs acc t))) Q NoErr True s') →
-      ∀ fuel s, Up s (toks .acts t ++ ts) → wp (parseActions cx fuel acc) Q NoErr True s
+      (∀ fuel' s', Up cx tl s' ts → wpl (parseActions cx fuel' (some (joinAs acc t))) Q NoErr True s') →
+      ∀ fuel s, Up cx tl s (toks .acts t ++ ts) → wpl (parseActions cx fuel acc) Q NoErr True s
   | .rule, t => ∀ (acc : Option CTree) (t0 : PTok) (ts : List PTok) (Q : CTree → ParseSt → Prop), stopAct t0 = true →
-      (∀ fuel' s', Up s' (t0 :: ts) → wp (parseExprs cx fuel' (some (joinR acc (relabel t)))) Q NoErr True s') →
-      ∀ fuel s, Up s (toks .rule t ++ t0 :: ts) → wp (parseExprs cx fuel acc) Q NoErr True s
+      (∀ fuel' s', Up cx tl s' (t0 :: ts) → wpl (parseExprs cx fuel' (some (joinR acc (relabel t)))) Q NoErr True s') →
+      ∀ fuel s, Up cx tl s (toks .rule t ++ t0 :: ts) → wpl (parseExprs cx fuel acc) Q NoErr True s
   | .rules, t => ∀ (acc : Option CTree) (t0 : PTok) (ts : List PTok) (Q : CTree → ParseSt → Prop), stopAct t0 = true →
-      (∀ fuel' s', Up s' (t0 :: ts) → wp (parseExprs cx fuel' (some (joinRs acc t))) Q NoErr True s') →
-      ∀ fuel s, Up s (toks .rules t ++ t0 :: ts) → wp (parseExprs cx fuel acc) Q NoErr True s
-  | .block, t => ∀ fuel, RT (parseExprs cx fuel none) (relabel t) ((toks .block t).drop 1)
+      (∀ fuel' s', Up cx tl s' (t0 :: ts) → wpl (parseExprs cx fuel' (some (joinRs acc t))) Q NoErr True s') →
+      ∀ fuel s, Up cx tl s (toks .rules t ++ t0 :: ts) → wpl (parseExprs cx fuel acc) Q NoErr True s
+  | .block, t => ∀ fuel, RT cx tl (parseExprs cx fuel none) (relabel t) ((toks .block t).drop 1)
 
 /-- An action without block. -/
-theorem act_leaf_goal (cx : PCtx) (hnl : cx.nl = 0) (e : Expr) (ha : e.leafAction = true) (hok : leafOK cx.rxOk e = true)
-    (hp : leafPOK e = true) : Goal cx .act (.leaf e) := by
+theorem act_leaf_goal (cx : PCtx) (hnl : cx.nl = countNl tl) (e : Expr) (ha : e.leafAction = true) (hok : leafOK cx.rxOk e = true)
+    (hp : leafPOK e = true) : Goal cx tl NoErr .act (.leaf e) := by
   intro acc ts Q hQ fuel s hs
   cases fuel with
-  | zero => simp [parseActions, wp, outOfFuel]
+  | zero => simp [parseActions, wpl, outOfFuel]
   | succ fuel =>
     unfold parseActions
-    simp only [wp_bind]
+    simp only [wpl_bind]
     simp only [toks] at hs
-    have fin : ∀ s', Up s' ts → wp (andJoin cx acc (.leaf (Expr.withLno 1 e)) >>= fun acc' => parseActions cx fuel acc') Q NoErr True s' := by
+    have fin : ∀ s', Up cx tl s' ts → wpl (andJoin cx acc (.leaf (Expr.withLno 1 e)) >>= fun acc' => parseActions cx fuel acc') Q NoErr True s' := by
       intro s' h'
-      simp only [wp_bind]
-      exact wp_andJoin cx hnl acc _ h' (hQ fuel s' h')
+      simp only [wpl_bind]
+      exact wpl_andJoin cx hnl acc _ h' (hQ fuel s' h')
     cases e <;> simp only [Expr.leafAction, Bool.false_eq_true] at ha
     case move l p =>
       simp only [actLeafToks, List.cons_append, List.nil_append] at hs
-      apply wp_peek_up cx _ _ hs rfl
+      apply wpl_peek_up cx _ _ hs rfl
       intro s1 h1
-      simp only [tkOf, parseActionWith, wp_bind]
-      apply wp_shift_up h1
+      simp only [tkOf, parseActionWith, wpl_bind]
+      apply wpl_shift_up h1
       intro s2 h2
-      refine wp_of_rt (parseStr_rt cx p) h2 ?_
+      refine wpl_of_rt (parseStr_rt cx p) h2 ?_
       intro s3 h3
-      apply wp_curLine_up cx hnl h3
+      apply wpl_curLine_up cx hnl h3
       have hps : strOK p = true := by simpa [leafPOK] using hp
-      apply wp_expandOne_up cx true p hps h3
-      simp only [wp_pure]
+      apply wpl_expandOne_up cx true p hps h3
+      simp only [wpl_pure]
       have := fin s3 h3
-      simp only [wp_bind] at this
+      simp only [wpl_bind] at this
       exact this
     case flag l sub =>
       have hsub : sub = curStr ∨ sub = newStr := by simpa [leafPOK] using hp
-      have hs' : Up s (.kw .flag :: ((if sub == curStr then [PTok.bang] else []) ++ .kw .new :: ts)) := by
+      have hs' : Up cx tl s (.kw .flag :: ((if sub == curStr then [PTok.bang] else []) ++ .kw .new :: ts)) := by
         simpa [actLeafToks] using hs
-      apply wp_peek_up cx _ _ hs' rfl
+      apply wpl_peek_up cx _ _ hs' rfl
       intro s1 h1
-      simp only [tkOf, parseActionWith, wp_bind]
-      apply wp_shift_up h1
+      simp only [tkOf, parseActionWith, wpl_bind]
+      apply wpl_shift_up h1
       intro s2 h2
       rcases hsub with rfl | rfl
       · -- `flag ! new`
-        have h2' : Up s2 (.bang :: .kw .new :: ts) := by simpa using h2
+        have h2' : Up cx tl s2 (.bang :: .kw .new :: ts) := by simpa using h2
         unfold parseOptNeg
-        simp only [wp_bind]
-        apply wp_peek_up cx _ _ h2' rfl
+        simp only [wpl_bind]
+        apply wpl_peek_up cx _ _ h2' rfl
         intro s3 h3
-        simp only [tkOf, wp_bind, wp_pure]
-        apply wp_shift_up h3
+        simp only [tkOf, wpl_bind, wpl_pure]
+        apply wpl_shift_up h3
         intro s4 h4
-        refine wp_of_rt (expectTk_rt cx (.kw .new) rfl) h4 ?_
+        refine wpl_of_rt (expectTk_rt cx (.kw .new) rfl) h4 ?_
         intro s5 h5
-        apply wp_curLine_up cx hnl h5
+        apply wpl_curLine_up cx hnl h5
         have := fin s5 h5
-        simpa only [wp_bind, if_true, curStr, Expr.withLno] using this
+        simpa only [wpl_bind, if_true, curStr, Expr.withLno] using this
       · -- `flag new`
         have hne : (newStr == curStr) = false := by decide
-        have h2' : Up s2 (.kw .new :: ts) := by simpa [hne] using h2
+        have h2' : Up cx tl s2 (.kw .new :: ts) := by simpa [hne] using h2
         unfold parseOptNeg
-        simp only [wp_bind]
-        apply wp_peek_up cx _ _ h2' rfl
+        simp only [wpl_bind]
+        apply wpl_peek_up cx _ _ h2' rfl
         intro s3 h3
-        simp only [tkOf, wp_bind, wp_pure]
+        simp only [tkOf, wpl_bind, wpl_pure]
         have hok := h2'.ok (.kw .new) (by simp)
-        refine wp_of_rt (expectTk_rt cx (.kw .new) rfl) (h3.up_some hok) ?_
+        refine wpl_of_rt (expectTk_rt cx (.kw .new) rfl) (h3.up_some hok) ?_
         intro s5 h5
-        apply wp_curLine_up cx hnl h5
+        apply wpl_curLine_up cx hnl h5
         have := fin s5 h5
-        simpa only [wp_bind, Bool.false_eq_true, if_false, newStr, Expr.withLno] using this
+        simpa only [wpl_bind, Bool.false_eq_true, if_false, newStr, Expr.withLno] using this
     case flags l f =>
       simp only [actLeafToks, List.cons_append, List.nil_append] at hs
-      apply wp_peek_up cx _ _ hs rfl
+      apply wpl_peek_up cx _ _ hs rfl
       intro s1 h1
-      simp only [tkOf, parseActionWith, wp_bind]
-      apply wp_shift_up h1
+      simp only [tkOf, parseActionWith, wpl_bind]
+      apply wpl_shift_up h1
       intro s2 h2
-      refine wp_of_rt (parseStr_rt cx f) h2 ?_
+      refine wpl_of_rt (parseStr_rt cx f) h2 ?_
       intro s3 h3
-      apply wp_curLine_up cx hnl h3
+      apply wpl_curLine_up cx hnl h3
       have hfs : strOK f = true := by simpa [leafPOK] using hp
-      apply wp_expandMac_up false f hfs h3
-      simp only [wp_pure]
+      apply wpl_expandMac_up false f hfs h3
+      simp only [wpl_pure]
       have := fin s3 h3
-      simp only [wp_bind] at this
+      simp only [wpl_bind] at this
       exact this
     case discard l =>
       simp only [actLeafToks, List.cons_append, List.nil_append] at hs
-      apply wp_peek_up cx _ _ hs rfl
+      apply wpl_peek_up cx _ _ hs rfl
       intro s1 h1
-      simp only [tkOf, parseActionWith, wp_bind]
-      apply wp_shift_up h1
+      simp only [tkOf, parseActionWith, wpl_bind]
+      apply wpl_shift_up h1
       intro s2 h2
-      simp only [leafAt, wp_bind, wp_pure]
-      apply wp_curLine_up cx hnl h2
+      simp only [leafAt, wpl_bind, wpl_pure]
+      apply wpl_curLine_up cx hnl h2
       have := fin s2 h2
-      simp only [wp_bind] at this
+      simp only [wpl_bind] at this
       exact this
     case brk l =>
       simp only [actLeafToks, List.cons_append, List.nil_append] at hs
-      apply wp_peek_up cx _ _ hs rfl
+      apply wpl_peek_up cx _ _ hs rfl
       intro s1 h1
-      simp only [tkOf, parseActionWith, wp_bind]
-      apply wp_shift_up h1
+      simp only [tkOf, parseActionWith, wpl_bind]
+      apply wpl_shift_up h1
       intro s2 h2
-      simp only [leafAt, wp_bind, wp_pure]
-      apply wp_curLine_up cx hnl h2
+      simp only [leafAt, wpl_bind, wpl_pure]
+      apply wpl_curLine_up cx hnl h2
       have := fin s2 h2
-      simp only [wp_bind] at this
+      simp only [wpl_bind] at this
       exact this
     case pass l =>
       simp only [actLeafToks, List.cons_append, List.nil_append] at hs
-      apply wp_peek_up cx _ _ hs rfl
+      apply wpl_peek_up cx _ _ hs rfl
       intro s1 h1
-      simp only [tkOf, parseActionWith, wp_bind]
-      apply wp_shift_up h1
+      simp only [tkOf, parseActionWith, wpl_bind]
+      apply wpl_shift_up h1
       intro s2 h2
-      simp only [leafAt, wp_bind, wp_pure]
-      apply wp_curLine_up cx hnl h2
+      simp only [leafAt, wpl_bind, wpl_pure]
+      apply wpl_curLine_up cx hnl h2
       have := fin s2 h2
-      simp only [wp_bind] at this
+      simp only [wpl_bind] at this
       exact this
     case reject l =>
       simp only [actLeafToks, List.cons_append, List.nil_append] at hs
-      apply wp_peek_up cx _ _ hs rfl
+      apply wpl_peek_up cx _ _ hs rfl
       intro s1 h1
-      simp only [tkOf, parseActionWith, wp_bind]
-      apply wp_shift_up h1
+      simp only [tkOf, parseActionWith, wpl_bind]
+      apply wpl_shift_up h1
       intro s2 h2
-      simp only [leafAt, wp_bind, wp_pure]
-      apply wp_curLine_up cx hnl h2
+      simp only [leafAt, wpl_bind, wpl_pure]
+      apply wpl_curLine_up cx hnl h2
       have := fin s2 h2
-      simp only [wp_bind] at this
+      simp only [wpl_bind] at this
       exact this
     case label l ls =>
       simp only [actLeafToks, List.cons_append, List.nil_append] at hs
-      apply wp_peek_up cx _ _ hs rfl
+      apply wpl_peek_up cx _ _ hs rfl
       intro s1 h1
-      simp only [tkOf, parseActionWith, wp_bind]
-      apply wp_shift_up h1
+      simp only [tkOf, parseActionWith, wpl_bind]
+      apply wpl_shift_up h1
       intro s2 h2
-      refine wp_of_rt (parseStrings_rt cx ls fuel) h2 ?_
+      refine wpl_of_rt (parseStrings_rt cx ls fuel) h2 ?_
       intro s3 h3
-      apply wp_curLine_up cx hnl h3
+      apply wpl_curLine_up cx hnl h3
       have hls : ∀ b ∈ ls, strOK b = true := by
         simp only [leafPOK, List.all_eq_true] at hp; exact hp
-      apply wp_expandAll_up cx true ls hls h3
-      simp only [wp_pure]
+      apply wpl_expandAll_up cx true ls hls h3
+      simp only [wpl_pure]
       have := fin s3 h3
-      simp only [wp_bind] at this
+      simp only [wpl_bind] at this
       exact this
     case exec l si bo argv =>
       have hargv : ∀ b ∈ argv, strOK b = true := by
@@ -270,33 +272,33 @@ theorem act_leaf_goal (cx : PCtx) (hnl : cx.nl = 0) (e : Expr) (ha : e.leafActio
       have hsb : (bo && !si) = false := by
         simp only [leafOK] at hok
         cases si <;> cases bo <;> simp_all
-      have hs' : Up s (.kw .exec :: ((if si then [PTok.kw .stdin] else []) ++ (if bo then [PTok.kw .body] else []) ++ strsToks argv ++ ts)) := by
+      have hs' : Up cx tl s (.kw .exec :: ((if si then [PTok.kw .stdin] else []) ++ (if bo then [PTok.kw .body] else []) ++ strsToks argv ++ ts)) := by
         simpa [actLeafToks, List.append_assoc] using hs
-      apply wp_peek_up cx _ _ hs' rfl
+      apply wpl_peek_up cx _ _ hs' rfl
       intro s1 h1
-      simp only [tkOf, parseActionWith, wp_bind]
-      apply wp_shift_up h1
+      simp only [tkOf, parseActionWith, wpl_bind]
+      apply wpl_shift_up h1
       intro s2 h2
       -- the options
-      have hfl : wp (parseExecFlags cx fuel false false) (fun fl s' => fl = (si, bo) ∧ Up s' (strsToks argv ++ ts)) NoErr True s2 := by
-        have hstop : ∀ (f : Nat) (a b : Bool) (s' : ParseSt), Up s' (strsToks argv ++ ts) →
-            wp (parseExecFlags cx f a b) (fun fl s'' => fl = (a, b) ∧ Up s'' (strsToks argv ++ ts)) NoErr True s' := by
+      have hfl : wpl (parseExecFlags cx fuel false false) (fun fl s' => fl = (si, bo) ∧ Up cx tl s' (strsToks argv ++ ts)) NoErr True s2 := by
+        have hstop : ∀ (f : Nat) (a b : Bool) (s' : ParseSt), Up cx tl s' (strsToks argv ++ ts) →
+            wpl (parseExecFlags cx f a b) (fun fl s'' => fl = (a, b) ∧ Up cx tl s'' (strsToks argv ++ ts)) NoErr True s' := by
           intro f a b s' h'
           cases f with
-          | zero => simp [parseExecFlags, wp, outOfFuel]
+          | zero => simp [parseExecFlags, wpl, outOfFuel]
           | succ f =>
             unfold parseExecFlags
-            simp only [wp_bind]
-            have h'' : Up s' (.lbrace :: (argv.map PTok.str ++ [.rbrace] ++ ts)) := by
+            simp only [wpl_bind]
+            have h'' : Up cx tl s' (.lbrace :: (argv.map PTok.str ++ [.rbrace] ++ ts)) := by
               simpa [strsToks, List.append_assoc] using h'
-            apply wp_peek_up cx _ _ h'' rfl
+            apply wpl_peek_up cx _ _ h'' rfl
             intro s1' h1'
-            simp only [tkOf, wp_pure]
+            simp only [tkOf, wpl_pure]
             refine ⟨by first | trivial | rfl, ?_⟩
             have := h1'.up_some (h''.ok _ (by simp))
             simpa [strsToks, List.append_assoc] using this
         cases fuel with
-        | zero => simp [parseExecFlags, wp, outOfFuel]
+        | zero => simp [parseExecFlags, wpl, outOfFuel]
         | succ fuel =>
           cases si <;> cases bo <;>
             simp only [if_true, if_false, Bool.false_eq_true, List.nil_append, List.cons_append, List.append_assoc] at h2
@@ -305,63 +307,63 @@ theorem act_leaf_goal (cx : PCtx) (hnl : cx.nl = 0) (e : Expr) (ha : e.leafActio
             simp at hsb
           · -- stdin
             unfold parseExecFlags
-            simp only [wp_bind]
-            apply wp_peek_up cx _ _ h2 rfl
+            simp only [wpl_bind]
+            apply wpl_peek_up cx _ _ h2 rfl
             intro s3 h3
-            simp only [tkOf, wp_bind]
-            apply wp_shift_up h3
+            simp only [tkOf, wpl_bind]
+            apply wpl_shift_up h3
             intro s4 h4
-            simp only [wp_ite, Bool.false_eq_true, if_false]
+            simp only [wpl_ite, Bool.false_eq_true, if_false]
             exact hstop _ _ _ s4 (by simpa [List.append_assoc] using h4)
           · -- stdin body
             unfold parseExecFlags
-            simp only [wp_bind]
-            apply wp_peek_up cx _ _ h2 rfl
+            simp only [wpl_bind]
+            apply wpl_peek_up cx _ _ h2 rfl
             intro s3 h3
-            simp only [tkOf, wp_bind]
-            apply wp_shift_up h3
+            simp only [tkOf, wpl_bind]
+            apply wpl_shift_up h3
             intro s4 h4
-            simp only [wp_ite, Bool.false_eq_true, if_false]
+            simp only [wpl_ite, Bool.false_eq_true, if_false]
             cases fuel with
-            | zero => simp [parseExecFlags, wp, outOfFuel]
+            | zero => simp [parseExecFlags, wpl, outOfFuel]
             | succ fuel =>
               unfold parseExecFlags
-              simp only [wp_bind]
-              apply wp_peek_up cx _ _ h4 rfl
+              simp only [wpl_bind]
+              apply wpl_peek_up cx _ _ h4 rfl
               intro s5 h5
-              simp only [tkOf, wp_bind]
-              apply wp_shift_up h5
+              simp only [tkOf, wpl_bind]
+              apply wpl_shift_up h5
               intro s6 h6
-              simp only [wp_ite, Bool.false_eq_true, if_false]
+              simp only [wpl_ite, Bool.false_eq_true, if_false]
               exact hstop _ _ _ s6 (by simpa [List.append_assoc] using h6)
-      refine wp_mono hfl ?_ (fun _ h => h)
+      refine wpl_mono hfl ?_ (fun _ _ h => h)
       rintro _ s3 ⟨rfl, h3⟩
-      refine wp_of_rt (parseStrings_rt cx argv (fuel)) h3 ?_
+      refine wpl_of_rt (parseStrings_rt cx argv (fuel)) h3 ?_
       intro s4 h4
-      apply wp_curLine_up cx hnl h4
-      apply wp_expandAll_up cx true argv hargv h4
-      simp only [hsb, wp_ite, Bool.false_eq_true, if_false, wp_pure]
+      apply wpl_curLine_up cx hnl h4
+      apply wpl_expandAll_up cx true argv hargv h4
+      simp only [hsb, wpl_ite, Bool.false_eq_true, if_false, wpl_pure]
       have := fin s4 h4
-      simp only [wp_bind] at this
+      simp only [wpl_bind] at this
       exact this
     case addHeader l k v =>
       simp only [actLeafToks, List.cons_append, List.nil_append] at hs
-      apply wp_peek_up cx _ _ hs rfl
+      apply wpl_peek_up cx _ _ hs rfl
       intro s1 h1
-      simp only [tkOf, parseActionWith, wp_bind]
-      apply wp_shift_up h1
+      simp only [tkOf, parseActionWith, wpl_bind]
+      apply wpl_shift_up h1
       intro s2 h2
-      refine wp_of_rt (parseStr_rt cx k) h2 ?_
+      refine wpl_of_rt (parseStr_rt cx k) h2 ?_
       intro s3 h3
-      refine wp_of_rt (parseStr_rt cx v) h3 ?_
+      refine wpl_of_rt (parseStr_rt cx v) h3 ?_
       intro s4 h4
-      apply wp_curLine_up cx hnl h4
+      apply wpl_curLine_up cx hnl h4
       have hkv : strOK k = true ∧ strOK v = true := by simpa [leafPOK] using hp
-      apply wp_expandMac_up false k hkv.1 h4
-      apply wp_expandMac_up true v hkv.2 h4
-      simp only [wp_pure]
+      apply wpl_expandMac_up false k hkv.1 h4
+      apply wpl_expandMac_up true v hkv.2 h4
+      simp only [wpl_pure]
       have := fin s4 h4
-      simp only [wp_bind] at this
+      simp only [wpl_bind] at this
       exact this
 
 end Mdsort.Proofs.Conf
